@@ -12,11 +12,11 @@ Open Scope string_scope.
 Definition no_function_named (y : string) (l : list ntok) : bool :=
   forallb (fun x => match x with NFunc name => negb (String.eqb name y) | _ => true end) l.
 
-Lemma lhs_guard_terms y ty l : ty <> TEndogenous -> ty <> TFunction -> no_function_named y l = true -> lhs_guard y (tok_terms ty l) = true.
+Lemma lhs_guard_terms lay y l : no_function_named y l = true -> lhs_guard y (lay_terms lay TExogenous l) = true.
 Proof.
-  intros H1 H2. unfold no_function_named, lhs_guard. induction l as [|x l IH]; [reflexivity|]. cbn [forallb]. intros H.
-  apply andb_true_iff in H as [Hx Hl]. destruct x as [name i|name|k|body|c]; cbn [tok_terms tok_term forallb ttype tname]; rewrite ?(IH Hl); try reflexivity.
-  - destruct ty; try reflexivity; congruence.
+  unfold no_function_named, lhs_guard. induction l as [|x l IH]; [reflexivity|]. cbn [forallb]. intros H.
+  apply andb_true_iff in H as [Hx Hl]. destruct x as [name i|name|k|body|c]; cbn [lay_terms lay_term tok_term forallb ttype tname]; rewrite ?(IH Hl); try reflexivity.
+  - destruct (lstyle (lay name i)); reflexivity.
   - rewrite Hx. reflexivity.
 Qed.
 
@@ -37,15 +37,19 @@ Theorem reparsed_equations lay y ky ws r syms :
 Proof.
   intros q Hq Hf Hp. pose proof (fixed_point_symbols lay q syms Hq Hp) as T.
   rewrite (normal_form_fixed_point lay q Hq) in Hp.
-  destruct (equation_symbols (neq_text q) (neq_code q) (neq_terms q)) as [l|] eqn:E; [|discriminate]. inversion Hp; subst l.
-  assert (Hws : tok_terms TEndogenous ws = []).
-  { unfold dq_ok in Hq. cbn [nlhs] in Hq. repeat (apply andb_true_iff in Hq as [Hq ?]).
-    match goal with H : forallb _ ws = true |- _ => revert H end. clear. induction ws as [|x l IH]; [reflexivity|].
-    cbn [forallb]. intros H. apply andb_true_iff in H as [Hx Hl]. destruct x; try discriminate. cbn [tok_terms tok_term]. apply IH, Hl. }
-  assert (G : lhs_guard y (neq_terms q) = true).
-  { unfold neq_terms, q. cbn [nlhs nrhs tok_terms tok_term]. rewrite Hws. unfold lhs_guard. cbn [app forallb ttype tname].
-    rewrite String.eqb_refl. apply (lhs_guard_terms y TExogenous r); [discriminate|discriminate|exact Hf]. }
-  assert (HE : has_type TEndogenous (neq_terms q) = true) by reflexivity.
+  destruct (equation_symbols (neq_text q) (neq_code q) (lneq_terms lay q)) as [l|] eqn:E; [|discriminate]. inversion Hp; subst l.
+  assert (Hparts : lay_terms lay TEndogenous ws = [] /\ lstyle (lay y (IInt ky)) = SVar).
+  { unfold dq_ok in Hq. apply andb_true_iff in Hq as [Hq _]. destruct (dq_ok_ws_parts lay y ky ws r Hq) as (_ & _ & _ & Hl & Hws & _).
+    split.
+    - clear - Hws. induction ws as [|x l IH]; [reflexivity|]. cbn [forallb] in Hws. apply andb_true_iff in Hws as [Hx Hl].
+      destruct x; try discriminate. cbn [lay_terms lay_term tok_term]. apply IH, Hl.
+    - unfold lhs_lay_ok in Hl. destruct (lstyle (lay y (IInt ky))); [reflexivity|discriminate|discriminate]. }
+  destruct Hparts as [Hws Hst].
+  assert (G : lhs_guard y (lneq_terms lay q) = true).
+  { unfold lneq_terms, q. cbn [nlhs nrhs lay_terms lay_term]. rewrite Hws, Hst. unfold lhs_guard. cbn [app forallb ttype tname style_type].
+    rewrite String.eqb_refl. apply (lhs_guard_terms lay y r Hf). }
+  assert (HE : has_type TEndogenous (lneq_terms lay q) = true).
+  { unfold lneq_terms, q. cbn [nlhs nrhs lay_terms lay_term]. rewrite Hst. reflexivity. }
   destruct (equation_symbols_one _ _ y _ _ G HE E) as [Hone Htidy].
   rewrite (equations_of_tidy syms Htidy). unfold n_emitted in Hone.
   destruct (filter emits syms) as [|s [|s2 rest]] eqn:F; cbn [length] in Hone; try lia.
